@@ -416,8 +416,8 @@ def check_C06(rep, tier):
         for r in vr.sh.results():
             sc = vr.sh.scenario(r["i"])
             exps = [d["expires"] for d in sc["scn"]["docs"] if d["typ"] == "layout"]
-            if any(abs(e) < 60 for e in exps):
-                continue
+            if any(abs(e) < 60 for e in exps) or sc["scn"].get("now", 0) != 0:
+                continue   # (scenarios with a moved verification instant need the pinned clock)
             n += 1
             vr.judge(r, env)
         rep.cov["evaluations"] += n
